@@ -9,6 +9,7 @@ package dict
 import (
 	"errors"
 	"fmt"
+	"math"
 
 	"github.com/fiorix/go-diameter/v4/diam/datatype"
 )
@@ -96,6 +97,10 @@ func (p *Parser) FindAVPWithVendor(appid uint32, code interface{}, vendorID uint
 		err error
 	)
 	origAppID := appid
+	if n, isInt := code.(int); isInt && (n < 0 || int64(n) > math.MaxUint32) {
+		// AVP codes are 32 bits: a truncated int would name another AVP.
+		return nil, fmt.Errorf("Could not find AVP %T(%d): not an AVP code", code, n)
+	}
 retry:
 	switch codeVal := code.(type) {
 	case string:
